@@ -88,6 +88,7 @@ func main() {
 	list := flag.Bool("list", false, "list implemented properties")
 	ssaFn := flag.String("ssa", "", "debug: dump SSA of functions with this name")
 	pathsFn := flag.String("paths", "", "debug: dump paths of function")
+	pinCanon := flag.Bool("pin-canon", false, "developer action: write the name-independent fingerprints of the present tree's functions to stdout (canon_pinned.json)")
 	depth := flag.Int("depth", 6, "debug: inline depth")
 	visits := flag.Int("visits", 2, "debug: max block visits")
 	cb := flag.Bool("cb", false, "debug: callbacks")
@@ -187,6 +188,10 @@ func main() {
 		os.Exit(1)
 	}
 
+	if *pinCanon {
+		os.Stdout.Write(w.canonPin())
+		return
+	}
 	if *ssaFn != "" || *pathsFn != "" {
 		debugDump(w, *ssaFn, *pathsFn, *depth, *visits, *cb, *maxp, *noinl)
 		return
@@ -197,6 +202,9 @@ func main() {
 		os.Exit(2)
 	}
 	c := NewCtx(w, *prop, *tier, seed)
+	if len(w.canonNotes) > 0 {
+		c.Extra["canonical_names"] = w.canonNotes
+	}
 	func() {
 		defer func() {
 			if r := recover(); r != nil {
